@@ -1664,7 +1664,7 @@ impl Checker
                 self.viol_sys("C06", Some(u as SysUid), format!("system {u} is named by {n} stored registrations, the history implies {mine}"));
             }
         }
-        if phase == 2
+        if phase == 2 || phase == 3
         {
             // C07: lifetime follows the mode
             for u in 0..self.systems.len()
@@ -1673,7 +1673,12 @@ impl Checker
                 if !s.entity_known { continue; }
                 let should_live = if s.manually_despawned { false }
                     else if s.once && s.runs > 0 { false }
-                    else if let Some(a) = s.arc { self.arcs[a].count > 0 }
+                    else if let Some(a) = s.arc
+                    {
+                        // after a frame (no trailing collection) a reactor that lost its last trigger during the
+                        // frame's poll is still waiting for the next collection
+                        self.arcs[a].count > 0 || (phase == 3 && self.arcs[a].doomed && !self.arcs[a].collected)
+                    }
                     else { true };
                 let lives = facts.sys.get(u).map(|x| *x != 0 && *x != 4).unwrap_or(false);
                 if should_live != lives
